@@ -203,6 +203,9 @@ fn permutation_events(seed: u64, thorough: bool, cli: Option<&str>) -> Vec<J> {
             uses.push(format!("{n}({l}, t7)"));
             uses.push(format!("{n}({})", g.join(", ")));
             uses.push(format!("{n}({l}, x => x)"));
+            uses.push(format!("{n}({l}, \"; \")"));
+            uses.push(format!("{n}({l}, 1)"));
+            uses.push(format!("to_string({n}({l}, \"; \")) == to_string({n}({l}, \"; \"))"));
         }
         uses.push(format!("{l} == {l}"));
         uses.push(format!("{{...{}}}", g[0]));
@@ -283,6 +286,7 @@ pub fn record(seed: u64, n: usize, cli: Option<&str>) -> Vec<J> {
                 prog.push(format!("{n}({l}, u6)"));
                 prog.push(format!("{n}({l}, u7)"));
                 prog.push(format!("{n}({l}, 1)"));
+                prog.push(format!("{n}({l}, \"-\")"));
                 prog.push(format!("{n}({l}, x => x.k)"));
                 prog.push(format!("{n}({l}, u7, 0)"));
             }
